@@ -423,6 +423,16 @@ func (f *FProc) Run() error {
 // Output serves env_cmds.
 func (f *FProc) Output() ([]byte, error) {
 	w := f.w
+	if a := f.cmd.Args; len(a) > 0 {
+		// a scripted auxiliary command (probe, shutdown command) run for its output behaves as under Run()
+		w.mu.Lock()
+		_, isAux := w.sc.Aux[a[len(a)-1]]
+		_, isEnv := w.sc.EnvCmdOut[a[len(a)-1]]
+		w.mu.Unlock()
+		if isAux && !isEnv {
+			return nil, f.Run()
+		}
+	}
 	vrt.Yield("envcmd")
 	w.mu.Lock()
 	defer w.mu.Unlock()
